@@ -264,7 +264,7 @@ func Mesh(r *rand.Rand, o MeshOpts) (modeling.Mesh, MeshDesc) {
 			case modeling.NormalAttribute:
 				v := vector3.New(r.NormFloat64(), r.NormFloat64(), r.NormFloat64())
 				if v.Length() < 1e-3 {
-					v = vector3.New(0, 1, 0)
+					v = vector3.New(0., 1., 0.)
 				}
 				v = v.Normalized()
 				a[i] = vector3.New(maybeF32(o.F32, v.X()), maybeF32(o.F32, v.Y()), maybeF32(o.F32, v.Z()))
